@@ -55,31 +55,66 @@ theorem no_partial_success {α : Type} (parse : List (List UInt8) → Outcome α
       rw [herr] at h
       simp at h
       subst h
-      have hlf : LimitFree (scan true [] cs e 0).2 := by
-        rw [herr]; exact ⟨by simp, by simp, by simp⟩
-      have ⟨ht, he⟩ := C17.tokens_are_lines cs e hlf
-      rw [herr] at he
-      refine ⟨?_, by rw [← ht]; exact hp⟩
-      cases e with
-      | eof => rfl
-      | fault => simp [endErr] at he
+      have ⟨he, ht⟩ := C17.no_error_all_lines cs e herr
+      exact ⟨he, by rw [← ht]; exact hp⟩
 
-/-- a line the scanner cannot buffer: if the document has a line of more than 65536 bytes, the
-    scanner ends with an error under every schedule (so, by `lineReader`, every reader does) -/
+/-! ### a line the repaired scanner refuses: more than `maxLineSize = 65535` bytes, terminator excluded -/
+
+/-- **A long line fails, and the bytes say with which error.** If some line of the bytes is longer
+    than 65535 bytes, then — for every schedule on which the reader is well behaved — the
+    scanner's error is `bufio.ErrTooLong`; or, when the stream ends with a read error and that
+    error was latched before the split function met the long line, the read error
+    (`Scanner.setErr` keeps the first error that is not `io.EOF`). Never nil. -/
+theorem long_line_fails (cs : List (List UInt8)) (e : End)
+    (hlong : ∃ l ∈ linesOf cs.flatten, maxLineSize < l.length)
+    (h : NoStall (scan true [] cs e 0).2) :
+    (scan true [] cs e 0).2 = some .tooLong ∨ (e = .fault ∧ (scan true [] cs e 0).2 = some .io) := by
+  have hf := (firstLong_iff cs.flatten).mpr hlong
+  rcases (C17.scan_bytes cs e h).2 with h2 | ⟨_, h2⟩
+  · rw [hf] at h2
+    cases e with
+    | eof => left; exact h2
+    | fault => right; exact ⟨rfl, h2⟩
+  · left; exact h2
+
+/-- stream ending with `io.EOF`: exactly `bufio.ErrTooLong`, and the lines before the long one -/
+theorem long_line_fails_eof (cs : List (List UInt8))
+    (hlong : ∃ l ∈ linesOf cs.flatten, maxLineSize < l.length)
+    (h : NoStall (scan true [] cs .eof 0).2) :
+    scan true [] cs .eof 0 = (linesBefore cs.flatten, some .tooLong) := by
+  rw [C17.scan_bytes_eof cs h, (firstLong_iff cs.flatten).mpr hlong]; rfl
+
+/-- with no hypothesis on the reader: the error is never nil (so, by `lineReader`, every reader
+    fails) — the other possible errors are the scanner's complaints about the reader -/
 theorem long_line_is_error (cs : List (List UInt8)) (e : End)
-    (hlong : ∃ l ∈ linesOf cs.flatten, maxTokenSize < l.length) :
+    (hlong : ∃ l ∈ linesOf cs.flatten, maxLineSize < l.length) :
     (scan true [] cs e 0).2 ≠ none := by
-  intro hnone
-  have hlf : LimitFree (scan true [] cs e 0).2 := by
-    rw [hnone]; exact ⟨by simp, by simp, by simp⟩
-  have ⟨ht, _⟩ := C17.tokens_are_lines cs e hlf
-  obtain ⟨l, hl, hlen⟩ := hlong
-  have := scan_tok_len true [] cs e 0 (by simp) l (by rw [ht]; exact hl)
-  omega
+  by_cases h : NoStall (scan true [] cs e 0).2
+  · rcases long_line_fails cs e hlong h with h2 | ⟨_, h2⟩ <;> rw [h2] <;> simp
+  · intro hn; apply h; rw [hn]; simp [NoStall]
+
+/-- conversely the repaired scanner never delivers such a line -/
+theorem no_long_line_delivered (cs : List (List UInt8)) (e : End) :
+    ∀ t ∈ (scan true [] cs e 0).1, t.length ≤ maxLineSize :=
+  scan_tok_le [] cs e 0
+
+/-- … and a document all of whose lines fit is read in full, without error, on every
+    well-behaved delivery that ends with `io.EOF`: the limit is exactly 65535 -/
+theorem short_lines_pass (cs : List (List UInt8))
+    (hshort : ∀ l ∈ linesOf cs.flatten, l.length ≤ maxLineSize)
+    (h : NoStall (scan true [] cs .eof 0).2) :
+    scan true [] cs .eof 0 = (linesOf cs.flatten, none) := by
+  have hf : firstLong cs.flatten = false := by
+    cases hc : firstLong cs.flatten with
+    | false => rfl
+    | true =>
+      obtain ⟨l, hl, hlen⟩ := (firstLong_iff _).mp hc
+      have := hshort l hl; omega
+  rw [C17.scan_bytes_eof cs h, hf, linesBefore_eq_of_not_long hf]; rfl
 
 theorem long_line_reader_error {α : Type} (parse : List (List UInt8) → Outcome α)
     (cs : List (List UInt8)) (e : End)
-    (hlong : ∃ l ∈ linesOf cs.flatten, maxTokenSize < l.length) :
+    (hlong : ∃ l ∈ linesOf cs.flatten, maxLineSize < l.length) :
     lineReader true parse (scan true [] cs e 0) = .err := by
   have h := long_line_is_error cs e hlong
   unfold lineReader
@@ -91,6 +126,18 @@ theorem long_line_reader_error {α : Type} (parse : List (List UInt8) → Outcom
       | none => exact absurd hh h
       | some _ => rfl
     simp [this]
+
+/-- non-vacuity, without evaluating a 65536-element list: a document whose first line is 65536
+    letters — followed by anything — has a long line; delivered one byte per `Read` it ends with
+    `bufio.ErrTooLong` and no token -/
+theorem long_line_example (rest : List UInt8) :
+    (∃ l ∈ linesOf (List.replicate (maxLineSize + 1) 97 ++ rest), maxLineSize < l.length) ∧
+    scan true [] ((List.replicate (maxLineSize + 1) 97 ++ rest).map fun b => [b]) .eof 0 =
+      ([], some .tooLong) := by
+  have hl := lineTooLong_of_noEOL rest (noEOL_replicate (maxLineSize + 1)) (by rw [List.length_replicate]; omega)
+  have ⟨h1, h2⟩ := firstLong_of_lineTooLong hl
+  refine ⟨(firstLong_iff _).mp h2, ?_⟩
+  rw [C17.bytewise, h1, h2]; rfl
 
 /-! ### STL block reader -/
 
